@@ -23,7 +23,9 @@ let handle = function
   | ["revr"; fl; w; sg; cw; csg; a; b_; s; brk; fuel] ->
       let b1 = rev_bound1_rt (b fl) (z cw) (b csg) (z a) (z b_) (z s) in
       string_of_lout (reversed_loop_rt (log_body (z brk)) (b fl) (z w) (b sg) (z cw) (b csg) (z a) (z b_) (z s) (nat_of_int (int_of_string fuel)) l0)
-      ^ " " ^ (match b1 with None -> "0" | Some b1 -> string_of_bool (rev_safe (z w) (b sg) b1 (z a) (z s)))
+      ^ " " ^ (match b1 with None -> "0" | Some b1 ->
+                 (* hypothesis of the theorem: the C evaluation of the start bound is exact and nothing leaves the type *)
+                 string_of_bool (b1 = rev_bound1_const (z a) (z b_) (z s) && rev_safe (z w) (b sg) b1 (z a) (z s)))
   | ["revb"; fl; cw; csg; a; b_; s] ->
       string_of_opt (rev_bound1_rt (b fl) (z cw) (b csg) (z a) (z b_) (z s)) ^ " " ^ string_of_z (rev_bound1_const (z a) (z b_) (z s))
   | ["enum"; w; sg; kw; ksg; typed; start; a; b_; s; brk; fuel] ->
